@@ -17,6 +17,7 @@ def Pre.size : Pre → Nat
   | .lit _ => 1
   | .ref _ => 1
   | .node _ ps => Pre.sizeList ps + 1
+  | .sorted ps => Pre.sizeList ps + 1
 def Pre.sizeList : List Pre → Nat
   | [] => 0
   | p :: ps => Pre.size p + Pre.sizeList ps
@@ -28,6 +29,7 @@ def Pre.occ (j : Nat) : Pre → Bool
   | .lit _ => false
   | .ref i => i == j
   | .node i ps => i == j || Pre.occList j ps
+  | .sorted ps => Pre.occList j ps
 def Pre.occList (j : Nat) : List Pre → Bool
   | [] => false
   | p :: ps => Pre.occ j p || Pre.occList j ps
@@ -39,6 +41,7 @@ def UniqueIds (W : Nat → Option Pre) : Pre → Prop
   | .lit _ => True
   | .ref _ => False
   | .node i ps => (i ≠ 0 → W i = some (.node i ps)) ∧ UniqueIdsList W ps
+  | .sorted ps => UniqueIdsList W ps
 def UniqueIdsList (W : Nat → Option Pre) : List Pre → Prop
   | [] => True
   | p :: ps => UniqueIds W p ∧ UniqueIdsList W ps
@@ -71,6 +74,11 @@ theorem occ_size (W : Nat → Option Pre) (j : Nat) (hj : j ≠ 0) :
       exact ⟨_, hu.1 hj, Nat.le_refl _⟩
     · obtain ⟨q, hq, hs⟩ := occList_size W j hj ps hu.2 h
       exact ⟨q, hq, by simp only [Pre.size]; omega⟩
+  | .sorted ps, hu, h => by
+    simp only [UniqueIds] at hu
+    simp only [Pre.occ] at h
+    obtain ⟨q, hq, hs⟩ := occList_size W j hj ps hu h
+    exact ⟨q, hq, by simp only [Pre.size]; omega⟩
 theorem occList_size (W : Nat → Option Pre) (j : Nat) (hj : j ≠ 0) :
     ∀ (ps : List Pre), UniqueIdsList W ps → Pre.occList j ps = true →
       ∃ q, W j = some q ∧ Pre.size q ≤ Pre.sizeList ps
@@ -169,6 +177,36 @@ theorem evalMemo_pure (H : Bytes → Bytes) (W : Nat → Option Pre) :
             · exact absurd rfl hij
             · left; exact hmem
           · right; exact hq
+  | .sorted ps, O, m, hu, hs, hO, h0 => by
+    simp only [UniqueIds] at hu
+    have hOps : ∀ j ∈ O, Pre.occList j ps = false := by
+      intro j hj
+      have := hO j hj
+      simpa only [Pre.occ] using this
+    obtain ⟨h1, h2⟩ := evalMemoEach_pure H W ps O m hu hs hOps h0
+    simp only [evalMemo, evalPure]
+    exact ⟨by rw [h1], h2⟩
+theorem evalMemoEach_pure (H : Bytes → Bytes) (W : Nat → Option Pre) :
+    ∀ (ps : List Pre) (O : List Nat) (m : Memo), UniqueIdsList W ps → Sound H W O m →
+      (∀ j ∈ O, Pre.occList j ps = false) → (0 ∉ O) →
+      (evalMemoEach H ps m).1 = evalPureEach H ps ∧ Sound H W O (evalMemoEach H ps m).2
+  | [], _, m, _, hs, _, _ => by simp [evalMemoEach, evalPureEach, hs]
+  | p :: ps, O, m, hu, hs, hO, h0 => by
+    simp only [UniqueIdsList] at hu
+    have hOp : ∀ j ∈ O, Pre.occ j p = false := by
+      intro j hj
+      have := hO j hj
+      simp only [Pre.occList, Bool.or_eq_false_iff] at this
+      exact this.1
+    have hOps : ∀ j ∈ O, Pre.occList j ps = false := by
+      intro j hj
+      have := hO j hj
+      simp only [Pre.occList, Bool.or_eq_false_iff] at this
+      exact this.2
+    obtain ⟨h1, h2⟩ := evalMemo_pure H W p O m hu.1 hs hOp h0
+    obtain ⟨h3, h4⟩ := evalMemoEach_pure H W ps O _ hu.2 h2 hOps h0
+    simp only [evalMemoEach, evalPureEach]
+    exact ⟨by rw [h1, h3], h4⟩
 theorem evalMemoList_pure (H : Bytes → Bytes) (W : Nat → Option Pre) :
     ∀ (ps : List Pre) (O : List Nat) (m : Memo), UniqueIdsList W ps → Sound H W O m →
       (∀ j ∈ O, Pre.occList j ps = false) → (0 ∉ O) →
